@@ -116,6 +116,26 @@ CHECKS = [
           "Choi == choi_from_unitary(V), MLE Choi positive/TP with fidelity >= 0.99, gate fidelity equals the closed form for 6 "
           "targets; V is the RefFock dual-rail unitary cross-checked against the literal product.",
   "note": "MLE on all 1-qubit processes and a fixed slice of 2-qubit ones (iterative solver, seconds each)"},
+ {"id": "C17", "engine": "E1", "ref": "DESIGN.md §3 C17",
+  "technique": "exhaustive enumeration of small result contents (ordered state selections x valuations x mappings)",
+  "text": "Every ordered selection of <=2 inputs and <=3 outputs from the 10 Fock states over 2 modes (and a 3-mode set), with an "
+          "injective fingerprint valuation and a degenerate one, real and complex: pair, nested and array indexing agree in the "
+          "given order; both mappings x invert x applied once and twice equal the per-mode image with coinciding images added "
+          "and conserve each input's total; amplitude results refuse mappings; SamplingResult round-trips every small count dict.",
+  "note": "repeated states in the lists are outside the alphabet"},
+ {"id": "C18", "engine": "E1", "ref": "DESIGN.md §3 C18",
+  "technique": "exhaustive enumeration of small states, label assignments, herald dictionaries in every key order",
+  "text": "All occupation lists of length <=3 over {0,1,2}: all pairs and triples for the algebraic laws, all slices, blocked "
+          "setters, independence of handed-out values; all label assignments of <=3 photons over 2 modes in every order; herald "
+          "insert/remove round trip for every position set in every key insertion order; dB conversions; seeded random "
+          "unitaries/permutations.",
+  "note": "length <=3 quick / <=4 thorough; caller-retained constructor lists outside the alphabet"},
+ {"id": "C19", "engine": "E1", "ref": "DESIGN.md §3 C19",
+  "technique": "bounded exhaustive enumeration of constructible circuits x display options",
+  "text": "Every program up to the depth bound over the rich construction alphabet x both back-ends x loss display x parameter "
+          "values x labels returns a drawing; wrong label length / unknown type raise DisplayError; circuit fingerprint and "
+          "parameter values unchanged.",
+  "note": "n=4 (+ sizes 1,2,6), depth 2/3; matplotlib on every k-th option set for cost; barrier([]) excluded"},
 ]
 _REASON = "check not built yet in this session (work in progress; not a claim that the technique cannot apply)"
 NOT_YET = [(f"C{i:02d}", _REASON) for i in range(1, 20) if f"C{i:02d}" not in {c["id"] for c in CHECKS}]
